@@ -18,7 +18,7 @@ class Policy:
     def __init__(self, session="accept", large_fo="accept", std_fo="accept", fclose="accept",
                  session_handles=None, conn_ids=None, max_std_size=511, max_large_size=4002, fo_refuse_first=0):
         self.session = session  # 'accept' | 'refuse' | 'refuse-with-handle'
-        self.large_fo = large_fo  # 'accept' | 'refuse08' (service not supported) | 'refuse0109' (invalid size)
+        self.large_fo = large_fo  # 'accept' | 'refuse08' (service not supported) | 'refuse0109' (invalid size) | 'refuse08bare' / 'refuse0109bare' (0 / 1 data bytes in the refusal)
         self.std_fo = std_fo  # 'accept' | 'refuse'
         self.fclose = fclose  # 'accept' | 'refuse'
         self.session_handles = list(session_handles or [0x01020304, 0x8A0B0C0D, 0x11223344, 0xFFFFFFFE, 0x99AABBCC])
@@ -398,12 +398,15 @@ class Target:
         if busy or (large and self.policy.large_fo != "accept") or (not large and self.policy.std_fo != "accept"):
             if busy:
                 status, ext = 0x01, [0x0113]
-            elif large and self.policy.large_fo == "refuse08":
+            elif large and self.policy.large_fo.startswith("refuse08"):
                 status, ext = 0x08, []
             else:
                 status, ext = 0x01, [0x0109]
             self.refused.append((kind, status))
             self.fo_log[-1] = (kind, size, False, fr.session)
+            if large and self.policy.large_fo.endswith("bare") and not busy:
+                # a device that does not know the service at all answers with the bare status: no Connection Manager failure data
+                return W.build_mr_reply(req.service, status, ext, b"" if self.policy.large_fo == "refuse08bare" else b"\x01")
             # failure reply: serial, vendor, originator serial, remaining path size, reserved
             return W.build_mr_reply(req.service, status, ext, struct.pack("<HHI", serial, vendor, orig_serial) + b"\x00\x00")
         limit = self.policy.max_large_size if large else self.policy.max_std_size
@@ -446,6 +449,12 @@ class Target:
                 route, tail = self._route_and_tail(segs)
                 if route is None or tail != [("class", 2), ("instance", 1)]:
                     self.event("C09/connection-path", f"Forward Close connection path {segs!r} does not end at the message router")
+                else:
+                    # the close must travel the route the connection was opened along
+                    for c in self.connections.values():
+                        if (c.serial, c.vendor, c.orig_serial) == (serial, vendor, orig_serial) and c.session == fr.session:
+                            if [(s[1], s[2]) for s in route] != list(c.route):
+                                self.event("C09/forward-close-route", f"Forward Close route {[(s[1], s[2]) for s in route]!r}, the connection was opened along {list(c.route)!r}")
             except E.EPathError as e:
                 self.event("C09/connection-path", f"Forward Close connection path: {e} in {raw.hex()}")
         if self.policy.fclose != "accept":
